@@ -50,6 +50,12 @@ class Prop(common.PropertyCheck):
         for i in range(self.budget(16, 150)):
             yield {'N': rng.choice([7, 40]), 'D': rng.randrange(2, 5), 'data': ['spread', 'modal', 'bright'][i % 3], 'cont': ['array_float', 'sample_rfi', 'sample_mef'][i % 3],
                    'chform': ['pos', 'list', 'name', 'none'][i % 4], 'seed': rng.randrange(1 << 30), 'inplace': True}
+        for i in range(self.budget(24, 200)):
+            yield {'N': rng.choice([7, 40, 400]), 'D': rng.randrange(2, 6), 'data': 'tight', 'cont': ['array_int', 'array_float', 'sample', 'sample_rfi'][i % 4],
+                   'chform': ['none', 'pos', 'list', 'neg1', 'perm', 'name'][i % 6], 'seed': rng.randrange(1 << 30)}
+        for i in range(self.budget(12, 100)):
+            yield {'N': rng.choice([3, 40]), 'D': rng.randrange(2, 6), 'data': ['spread', 'modal'][i % 2], 'cont': ['sample', 'sample_rfi', 'array_float', 'sample_reordered'][i % 4],
+                   'chform': 'neg1', 'seed': rng.randrange(1 << 30)}
         # relative dispersions do not depend on the units: tiny and huge magnitudes; channels without signal (0/0 is not a number)
         for i in range(self.budget(24, 300)):
             yield {'N': rng.choice([7, 40, 400]), 'D': rng.randrange(2, 5), 'data': ['spread', 'modal', 'spread'][i % 3], 'cont': 'array_float',
@@ -101,6 +107,9 @@ class Prop(common.PropertyCheck):
         elif kind == 'negative':
             # signed data centred below zero (background-subtracted / compensated values)
             ev = r.randint(-900, 120, size=(N, D))
+        elif kind == 'tight':
+            # a narrow peak (bead-like): coefficient of variation around 1-2 %
+            ev = r.randint(400, 421, size=(N, D)) if N < 40 else np.round(r.normal(5000, 100, size=(N, D))).astype(int)
         elif kind == 'zeros':
             # a channel without signal: every value zero (first channel), mostly zeros (second)
             ev = r.randint(1, 1000, size=(N, D))
@@ -112,7 +121,7 @@ class Prop(common.PropertyCheck):
             ev = r.randint(40000, 65535, size=(N, D))
         else:
             ev = r.randint(1, 1023, size=(N, D))
-        top = 65536 if kind == 'bright' else 1024
+        top = 65536 if kind in ('bright', 'tight') else 1024
         cont = case['cont']
         if kind == 'negative' and cont == 'sample_mef':
             cont = 'sample_rfi'        # the power-law curve of this harness has no value at negative inputs
@@ -122,7 +131,7 @@ class Prop(common.PropertyCheck):
                 d = (ev * 30).astype(np.int16) if kind == 'negative' else \
                     ev.astype(np.uint16) if kind == 'bright' or r.rand() < 0.5 else (ev // 8).astype(np.uint8) if r.rand() < 0.5 else (ev * 30).astype(np.int16)
             else:
-                d = ev.astype(np.int64) if cont == 'array_int' else ev.astype(np.float64) + r.rand(N, D) * (0 if kind in ('ties', 'const', 'modal', 'bright', 'zeros') else 1)
+                d = ev.astype(np.int64) if cont == 'array_int' else ev.astype(np.float64) + r.rand(N, D) * (0 if kind in ('ties', 'const', 'modal', 'bright', 'zeros', 'tight') else 1)
                 if case.get('scale') and cont == 'array_float':
                     d = d * case['scale']            # the same data in other units (very small / very large magnitudes)
         else:
@@ -161,6 +170,8 @@ class Prop(common.PropertyCheck):
             ch, cols = 1, [1]
         elif chf == 'pos0':
             ch, cols = 0, [0]
+        elif chf == 'neg1':
+            ch, cols = [-1], [D - 1]              # a one-element list holding the last position counted from the end
         elif chf == 'name_alias':
             # the name of the last channel (which is also the $PnS label of the first one in these files)
             ch, cols = (names[D - 1] if names else D - 1), [D - 1]
@@ -296,7 +307,7 @@ class Prop(common.PropertyCheck):
     def model_request(self, case, impl):
         if case.get('big'):
             return None
-        if isinstance(impl['res']['mode'], str):
+        if isinstance(impl['res']['mode'], str) or not impl['res']['mode'] or not all(impl['shape_ok'].values()):
             return None
         return {'op': 'stats', 'col': impl['cols'][0], 'mode': bits(impl['res']['mode'][0])}
 
